@@ -181,6 +181,9 @@ def render_file(fid, f, plain=False):
     # (gcc warns about a spliced last line without a final newline: keep that out of the domain)
     if plain or not (st.next(10) == 0 and out and out[-1].strip()) or (len(out) >= 2 and out[-2].endswith("\\")):
         text += "\n"
+    # some editors put a UTF-8 byte order mark in front of the first line; compilers skip it
+    if not plain and st.next(7) == 0:
+        text = "\ufeff" + text
     return text, layout, counted
 
 
